@@ -981,3 +981,88 @@ func E7PointRelease(c *core.Ctx, r *core.Report) {
 	r.Count("E7.point-releases", n)
 	r.Floor("E7.point-releases", 4)
 }
+
+// E7GlobalEscape: the address of a package-level variable is not stored where later writes can reach it.
+func E7GlobalEscape(c *core.Ctx, r *core.Report) {
+	r.Rule("E7.global-escape", "module-wide: the address of a package-level variable of the module (or of a part of it) is not stored into an object, a slice or a map, nor returned, outside package initialisation: whoever holds that pointer writes the shared default for every other user (a renderer created with nil options that keeps `&DefaultOptions` lets SetImageEncoding on one document change the encoding of all later and concurrent ones). Copy the value instead. Followed through φ-nodes and conversions; pointers to sync primitives and values that are themselves pointers read from the variable are not addresses of it")
+	fns := moduleFunctions(c)
+	var isAddr func(v ssa.Value, depth int) *ssa.Global
+	isAddr = func(v ssa.Value, depth int) *ssa.Global {
+		if depth > 6 {
+			return nil
+		}
+		switch x := v.(type) {
+		case *ssa.Global:
+			if x.Pkg != nil && strings.HasPrefix(x.Pkg.Pkg.Path(), core.Module) {
+				return x
+			}
+		case *ssa.FieldAddr:
+			return isAddr(x.X, depth+1)
+		case *ssa.IndexAddr:
+			return isAddr(x.X, depth+1)
+		case *ssa.Phi:
+			for _, e := range x.Edges {
+				if g := isAddr(e, depth+1); g != nil {
+					return g
+				}
+			}
+		case *ssa.ChangeType:
+			return isAddr(x.X, depth+1)
+		case *ssa.Convert:
+			return isAddr(x.X, depth+1)
+		case *ssa.MakeInterface:
+			return isAddr(x.X, depth+1)
+		}
+		return nil
+	}
+	syncType := func(g *ssa.Global) bool {
+		t := g.Type().String()
+		return strings.Contains(t, "sync.") || strings.Contains(t, "atomic.")
+	}
+	n := 0
+	for _, fn := range fns {
+		if fn.Name() == "init" && fn.Parent() == nil {
+			continue
+		}
+		ord := map[string]int{}
+		for _, b := range fn.Blocks {
+			for _, ins := range b.Instrs {
+				var g *ssa.Global
+				how := ""
+				switch x := ins.(type) {
+				case *ssa.Store:
+					// storing the address as a value; the destination must not be a plain local slot only read back
+					if gg := isAddr(x.Val, 0); gg != nil {
+						if _, isAlloc := x.Addr.(*ssa.Alloc); isAlloc && !x.Addr.(*ssa.Alloc).Heap {
+							continue
+						}
+						g, how = gg, "stored"
+					}
+				case *ssa.Return:
+					for _, res := range x.Results {
+						if gg := isAddr(res, 0); gg != nil {
+							g, how = gg, "returned"
+						}
+					}
+				case *ssa.MapUpdate:
+					if gg := isAddr(x.Value, 0); gg != nil {
+						g, how = gg, "stored in a map"
+					}
+				}
+				if g == nil || syncType(g) {
+					continue
+				}
+				n++
+				ord[g.Name()]++
+				key := fmt.Sprintf("%s|address of %s %s", core.ShortFunc(fn), g.Name(), how)
+				if ord[g.Name()] > 1 {
+					key += fmt.Sprintf(" #%d", ord[g.Name()])
+				}
+				r.Fail("E7.global-escape", key, c.Pos(ins.Pos()), fmt.Sprintf("the address of the package-level variable %s is %s here: every later write through that pointer changes the shared value for all other objects and goroutines", g.Name(), how))
+			}
+		}
+	}
+	r.OK("E7.global-escape", "module|no address of a package-level variable escapes into objects or results", "", fmt.Sprintf("%d functions examined", len(fns)))
+	r.Count("E7.functions-examined-for-global-escape", len(fns))
+	r.Floor("E7.functions-examined-for-global-escape", 500)
+}
